@@ -156,6 +156,8 @@ def install_counters():
         d = getattr(self, 'depth', 0)
         if d > st['max_depth']:
             st['max_depth'] = d
+            if st['budget'] is not None and d > st.get('depth_abort', 10 ** 9):
+                raise Oversize('generator depth counter %d: runaway nesting' % d)
         st['nest'] += 1
         if st['nest'] > st['max_nest']:
             st['max_nest'] = st['nest']
@@ -192,7 +194,8 @@ def gen_case(lang, mode='seed', seed=0, switches=(), limits=None, data=None, tap
         rnd = DrawRandom(data) if tape is None else TapeRandom(tape)
     boot.reset_case(seed=seed, rnd=rnd)
     st = _wrapped['gen']
-    st.update(calls=0, max_depth=0, nest=0, max_nest=0, budget=budget)
+    md_ = (limits or {}).get('max_depth', 6)
+    st.update(calls=0, max_depth=0, nest=0, max_nest=0, budget=budget, depth_abort=4 * (2 * md_ + 40))
     if recorder is not None:
         recorder.take()          # drop leftovers of a generation that Hypothesis aborted (overrun / stop)
     ctx = recorder.recording() if recorder is not None else contextlib.nullcontext()
